@@ -17,6 +17,7 @@ oracle: a reference history interpreter written from the property text (no Lean,
 from __future__ import annotations
 
 import copy
+import os
 import re
 import shutil
 import signal
@@ -32,12 +33,17 @@ RULE = ("worlds of 1-3 generated templates sharing one back end; a template = op
         "(literal / ${var} / mixed; colliding keys allowed on the recording back end) p=.35, cache_type/foo/timeout/dyn "
         "attributes at template, page and section level; defs take one string argument and are called with literals, "
         "context variables and enclosing parameters, with and without an expression filter at the call site; "
-        "histories of 4-30 ops with contexts over x,y in {1,2,3}; URIs in a world may differ only in punctuation; "
+        "histories of 4-30 ops with contexts over x,y in {1,2,3}; URIs in a world may differ only in punctuation; in ~1/4 of "
+        "the multi-template worlds the last template REPLACES an earlier one under the same URI in mid-history (put_string "
+        "again; op P), with and without cache_timeout; a fixed family re-binds a URI by put_string, by a file edit + lookup "
+        "reload (filesystem_checks) and by a recycled memory:0x.. id, for timeouts 0/1000/86400 on the reference back end and "
+        "Beaker memory/file; "
         "back ends: recording dict CacheImpl (pass_context on/off), Beaker memory, Beaker file (thorough), dogpile "
         "memory; a case is non-trivial when at least one cached section is served from the back end and at least one "
         "is re-created after an invalidation / toggle; distinct = distinct (world, history)")
 ASSUMPTIONS = [
-    "back ends obey the CacheImpl contract (get_or_create stores what it creates, invalidate removes, set/get); "
+    "back ends obey the CacheImpl contract (get_or_create stores what it creates, invalidate removes, set/get; entries "
+    "stored before Cache.starttime count as absent on the reference back end and Beaker - dogpile's plugin ignores it); "
     "which keyword arguments select the container is a parameter of the model (recording impl and Beaker: `type`; dogpile: `region`)",
     "expiry clocks are out of scope: every timeout used is >= 1000 s and runs take seconds",
     "context values, def arguments, keys and cached values are str; cache_timeout is a decimal literal",
@@ -797,11 +803,9 @@ class Impl:
     """runs a case on the real mako code"""
 
     def __init__(self, case, tmpdir=None):
-        from mako.template import Template
         from mako.lookup import TemplateLookup
         _register()
         self.case = case
-        be = case["backend"]
         _RecState.store = {}
         _RecState.calls = []
         _RecState.pass_context = case["pass_context"]
@@ -1191,6 +1195,11 @@ def valid_case(case):
         lines = [s["line"] for s in all_sections(td) if s["kind"] == "ablock"]
         if len(set(lines)) != len(lines):
             return False
+    for td in case["templates"]:
+        if td.get("late"):
+            o = case["templates"][td["replaces"]]       # bound through one lookup: same URI and cache configuration
+            if (td["uri"], td["cache_args"], td["enabled"]) != (o["uri"], o["cache_args"], o["enabled"]):
+                return False
     # a template that takes over a URI is compiled exactly once, before it is used; the replaced one is not used afterwards
     compiled = set(i for i, td in enumerate(case["templates"]) if not td.get("late"))
     dead = set()
@@ -1569,6 +1578,123 @@ def stream_shared_backend(ctx, seen_sites, backends):
                 report_violation(ctx, "oracle.shared_backend", case, d, seen_sites)
 
 
+def _takeover_source(version, timeout):
+    attr = ' cache_timeout="%d"' % timeout if timeout else ""
+    return ('<%%page cached="True"%s/><%%def name="frag()" cached="True"%s>%s frag ${x}</%%def>'
+            '<%%block name="blk" cached="True"%s>%s blk ${x}</%%block>|${frag()}|%s page ${x}'
+            % (attr, attr, version, attr, version, version))
+
+
+def _takeover_expect(version, x):
+    return "%s blk %s|%s frag %s|%s page %s" % (version, x, version, x, version, x)
+
+
+def takeover_scenarios(backend, tmp):
+    """(label, got, expected) for every way a template takes over another one's cache id: the URI bound again with
+    put_string, a file reloaded by a lookup with filesystem_checks, an anonymous template allocated at the address of a
+    collected one - each for sections with and without cache_timeout.  After the takeover the new template must render
+    its own text (its bodies run once) and then replay that, never the predecessor's."""
+    import gc
+    from mako.lookup import TemplateLookup
+    from mako.template import Template
+    res = []
+
+    def args(tag):
+        if backend == "rec":
+            return "verif_recording", {}
+        if backend == "beaker_memory":
+            return "beaker", {"type": "memory"}
+        d = os.path.join(tmp, "cache_" + tag)
+        return "beaker", {"type": "file", "dir": d}
+    for timeout in (0, 1000, 86400):
+        # --- put_string twice
+        impl, ca = args("ps%d" % timeout)
+        lk = TemplateLookup(cache_impl=impl, cache_args=ca)
+        uri = "/takeover/ps_%s_%d.html" % (backend, timeout)
+        lk.put_string(uri, _takeover_source("v1", timeout))
+        t = lk.get_template(uri)
+        res.append(("put_string timeout=%d v1" % timeout, t.render(x=1), _takeover_expect("v1", 1)))
+        res.append(("put_string timeout=%d v1 replay" % timeout, t.render(x=2), _takeover_expect("v1", 1)))
+        lk.put_string(uri, _takeover_source("v2", timeout))
+        t = lk.get_template(uri)
+        res.append(("put_string timeout=%d v2" % timeout, t.render(x=3), _takeover_expect("v2", 3)))
+        res.append(("put_string timeout=%d v2 replay" % timeout, t.render(x=4), _takeover_expect("v2", 3)))
+        # --- file edit + reload through a lookup with filesystem_checks
+        impl, ca = args("fr%d" % timeout)
+        tdir = os.path.join(tmp, "tmpl_%s_%d" % (backend, timeout))
+        os.makedirs(tdir)
+        path = os.path.join(tdir, "index.html")
+        with open(path, "w") as f:
+            f.write(_takeover_source("v1", timeout))
+        past = time.time() - 100
+        os.utime(path, (past, past))
+        lk = TemplateLookup(directories=[tdir], filesystem_checks=True, cache_impl=impl, cache_args=ca)
+        t1 = lk.get_template("index.html")
+        res.append(("file reload timeout=%d v1" % timeout, t1.render(x=1), _takeover_expect("v1", 1)))
+        res.append(("file reload timeout=%d v1 replay" % timeout, t1.render(x=2), _takeover_expect("v1", 1)))
+        with open(path, "w") as f:
+            f.write(_takeover_source("v2", timeout))
+        newer = t1.module._modified_time + 1          # the lookup compares whole seconds of mtime with the compile time
+        os.utime(path, (newer, newer))
+        t2 = lk.get_template("index.html")
+        res.append(("file reload timeout=%d reloaded" % timeout, t2 is not t1, True))
+        res.append(("file reload timeout=%d v2" % timeout, t2.render(x=3), _takeover_expect("v2", 3)))
+        res.append(("file reload timeout=%d v2 replay" % timeout, t2.render(x=4), _takeover_expect("v2", 3)))
+        # --- an anonymous template at the address of a collected one ("memory:0x..." is its cache id)
+        impl, ca = args("an%d" % timeout)
+        t = Template(_takeover_source("first", timeout), cache_impl=impl, cache_args=dict(ca))
+        first_id = t.module_id
+        res.append(("anonymous timeout=%d first" % timeout, t.render(x=1), _takeover_expect("first", 1)))
+        del t
+        gc.collect()
+        keep = []
+        for attempt in range(300):
+            t = Template(_takeover_source("later", timeout), cache_impl=impl, cache_args=dict(ca))
+            if t.module_id == first_id:
+                res.append(("anonymous timeout=%d later template with the same id" % timeout, t.render(x=2),
+                            _takeover_expect("later", 2)))
+                break
+            keep.append(t)          # keep it alive so that its address is not handed out again
+            if len(keep) > 40:
+                keep.pop(0)
+        else:
+            res.append(("anonymous timeout=%d (id not reused in 300 allocations)" % timeout, True, True))
+    return res
+
+
+def stream_takeover(ctx, seen_sites, backends):
+    """a template that replaces another one under the same cache id is never served the predecessor's entries"""
+    st = ctx.stream("oracle.takeover", "oracle")
+    _register()
+    for be in backends:
+        if be == "dogpile":
+            continue          # its plugin ignores Cache.id and starttime altogether (third party), see ASSUMPTIONS
+        tmp = tempfile.mkdtemp(prefix="c17t_")
+        try:
+            if be.startswith("beaker"):
+                _reset_beaker()
+            _RecState.store = {}
+            _RecState.pass_context = False
+            _RecState.region_key = "type"
+            try:
+                res = takeover_scenarios(be, tmp)
+            except Exception as e:
+                res = [("takeover scenarios on %s raised" % be, "%s: %s" % (type(e).__name__, e), None)]
+            for label, got, exp in res:
+                st["cases"] += 1
+                ctx.branch("takeover:%s:%s" % (be, label.split(" timeout")[0]))
+                if got != exp and (be, "takeover") not in seen_sites:
+                    seen_sites.add((be, "takeover"))
+                    ctx.violation("takeover-served-predecessor-entry",
+                                  {"input": "%s: %s" % (be, label), "backend": be, "scenario": label,
+                                   "source_v1": _takeover_source("v1", int(label.split("timeout=")[1].split()[0]) if "timeout=" in label else 0)},
+                                  {"got": got, "expected": exp}, "oracle.takeover")
+        finally:
+            if be.startswith("beaker"):
+                _reset_beaker()
+            shutil.rmtree(tmp, ignore_errors=True)
+
+
 def stream_backend_api(ctx, seen_sites, backends):
     """cache.set / cache.get on every back end"""
     st = ctx.stream("oracle.backend_api", "oracle")
@@ -1616,6 +1742,7 @@ def run(ctx):
     finally:
         stream_shared_backend(ctx, seen, backends)
         stream_backend_api(ctx, seen, backends)
+        stream_takeover(ctx, seen, backends + (["beaker_file"] if "beaker_memory" in backends and "beaker_file" not in backends else []))
     if err is not None:
         raise err
 
